@@ -107,7 +107,10 @@ def r4_parse_back(ctx):
                     continue            # C12-R2 reports it
                 pcs = run.pieces(rets[0].value)
                 ps = run.mantissa_precision(rets[0].value)
-                if [kk for kk, _ in pcs] != ["mantissa", "lit", "exp"] or len(ps) != 1:
+                kinds = [kk for kk, _ in pcs]
+                if kinds == ["mantissa", "lit"] and expzero and pcs[1][1].endswith("0"):
+                    kinds, pcs = kinds + ["exp"], [pcs[0], ("lit", pcs[1][1][:-1]), ("exp", None)]      # the exponent 0 written as a literal digit
+                if kinds != ["mantissa", "lit", "exp"] or len(ps) != 1:
                     continue
                 P = min(ps)
                 lit = pcs[1][1]
